@@ -195,8 +195,13 @@ func Build(r *mrand.Rand, o Opts) *Perso {
 	if o.CA.On || pace {
 		has[14] = true
 	}
-	// --- simple data groups
+	// --- simple data groups (in ascending order: the PRNG is consumed here)
+	var order []int
 	for n := range has {
+		order = append(order, n)
+	}
+	sort.Ints(order)
+	for _, n := range order {
 		switch n {
 		case 2:
 			p.DGFiles[2] = fitDG2(r, o.DG2Size)
